@@ -47,6 +47,7 @@ type ProcSpec struct {
 	WriteIdiom bool             `json:"writeidiom,omitempty"`
 	JoinSep    string           `json:"joinsep,omitempty"` // kind "joiner": {i:x|join:SEP}
 	JoinMod    string           `json:"joinmod,omitempty"` // kind "joiner": extra modifier (basename, %.txt)
+	OutsNotInCmd bool           `json:"outs_not_in_cmd,omitempty"` // out-ports declared by SetOut only, absent from the command pattern
 	BarrierOnly []string        `json:"barrier_only,omitempty"` // only tasks whose key contains one of these take part in the barrier
 	FromStrLate bool            `json:"fromstr_late,omitempty"` // apply FromStr after the edges
 	Prepend    string           `json:"prepend,omitempty"` // Process.Prepend (a launcher put in front of the command)
@@ -193,6 +194,11 @@ func cmdPattern(p *ProcSpec) string {
 		if o.Stream {
 			ph = "{os:" + o.Name + "}"
 		}
+		if p.OutsNotInCmd {
+			// the out-port exists only through SetOut: the command derives the file name itself
+			// (here: from the base name of its input, which is what the pattern {i:in}.NAME gives)
+			ph = strings.Replace(o.Pattern, "{i:in}", "{i:in|basename}", 1)
+		}
 		if o.PhSuffix != "" {
 			// the out-placeholder written with a modifier: strip a suffix and put it back
 			ph = "{o:" + o.Name + "|%" + o.PhSuffix + "}" + o.PhSuffix
@@ -308,6 +314,8 @@ func (w *WSpec) build(env *Env) *built {
 			b.procs[ps.Name] = p
 		case "ppass":
 			b.procs[ps.Name] = newPPass(wf, ps.Name)
+		case "psplit":
+			b.procs[ps.Name] = newPSplit(wf, ps.Name)
 		case "recorder":
 			b.procs[ps.Name] = newRecorder(wf, ps.Name)
 		default:
@@ -432,6 +440,28 @@ func (p *ppass) Run() {
 	defer p.CloseAllOutPorts()
 	for v := range p.InParamPort("in").Chan {
 		p.OutParamPort("out").Send(v)
+	}
+}
+
+// psplit forwards every parameter it receives to BOTH of its param out-ports (out, then out2).
+type psplit struct {
+	sp.BaseProcess
+}
+
+func newPSplit(wf *sp.Workflow, name string) *psplit {
+	p := &psplit{BaseProcess: sp.NewBaseProcess(wf, name)}
+	p.InitInParamPort(p, "in")
+	p.InitOutParamPort(p, "out")
+	p.InitOutParamPort(p, "out2")
+	wf.AddProc(p)
+	return p
+}
+
+func (p *psplit) Run() {
+	defer p.CloseAllOutPorts()
+	for v := range p.InParamPort("in").Chan {
+		p.OutParamPort("out").Send(v)
+		p.OutParamPort("out2").Send(v)
 	}
 }
 
@@ -596,6 +626,13 @@ func (w *WSpec) referencePre(pre map[string]string) *Ref {
 				}
 			case "psrc":
 				paramEmit[p.Name+".out"] = append([]string{}, p.Items...)
+			case "psplit":
+				for _, e := range w.Edges {
+					if e.To == p.Name && e.Param {
+						paramEmit[p.Name+".out"] = append(paramEmit[p.Name+".out"], paramEmit[e.From+"."+e.FromPort]...)
+						paramEmit[p.Name+".out2"] = append(paramEmit[p.Name+".out2"], paramEmit[e.From+"."+e.FromPort]...)
+					}
+				}
 			case "ppass":
 				for _, e := range w.Edges {
 					if e.To == p.Name && e.Param {
